@@ -34,7 +34,11 @@ CONSTANTS Family,     \* "conc" | "seq"
           \* ---- family "fault": one call under a one-shot raw-lock fault at each operation index, then probes
           FltColls, FltApis, FltKeys, FltRels, FltHolders, FltMaxAt,
           FltTryProbes,  \* collections probed with try_lock after the faulted call
-          FltLockProbes  \* collections probed with a blocking lock after that
+          FltLockProbes, \* collections probed with a blocking lock after that
+          \* ---- family "ctor": checked constructors over every member list (with repetition)
+          CtorKinds,     \* subset of {"boxed","ref","retry"}
+          CtorUniv,      \* members: subset of 1..8 (indices into CtorMembers)
+          CtorMaxLen
 
 Arena == <<Leaf("R"), Leaf("R"), Leaf("M"), Unit(<<6, 5>>), Leaf("R"), Leaf("R")>>
 
@@ -141,7 +145,31 @@ FltScens == {[SeqSc0 EXCEPT !.progs = <<<<ca>> \o ProbeSeq(FltTryProbes, "try_lo
                             !.faults = [k |-> "oneshot", at |-> n]] :
                ca \in FltCalls, h \in FltHolders, n \in 1..FltMaxAt}
 
+(***************************************************************************)
+(* Family "ctor": TLC as the enumerator of constructor inputs: every member *)
+(* list of length 0..CtorMaxLen (with repetition, so duplicates at every    *)
+(* pair of positions, adjacent or not, and "listed next to a nested         *)
+(* collection that already contains it").                                    *)
+(***************************************************************************)
+CtorMenu == <<
+  MkColl("boxed", "try_new", <<1, 2>>),      \* coll 1: nested boxed[1,2]
+  MkColl("retry", "try_new", <<2, 3>>),      \* coll 2: nested retry[2,3]
+  MkColl("pois", "new", <<1>>),              \* coll 3: Poisonable<RwLock 1>
+  MkColl("ref", "try_new", <<3, 1>>)         \* coll 4: nested ref[3,1]
+>>
+CtorMembers == <<[s |-> 1, c |-> 0], [s |-> 2, c |-> 0], [s |-> 3, c |-> 0], [s |-> 4, c |-> 0],
+                 [s |-> 0, c |-> 1], [s |-> 0, c |-> 2], [s |-> 0, c |-> 3], [s |-> 0, c |-> 4]>>
+CtorLists == UNION {[1..n -> CtorUniv] : n \in 0..CtorMaxLen}
+CtorScen(kind, lst) ==
+  LET tc  == [kind |-> kind, ctor |-> "try_new", items |-> [i \in 1..Len(lst) |-> CtorMembers[lst[i]]]]
+      sc0 == [arena |-> Arena, colls |-> Append(CtorMenu, tc), progs |-> <<<<>>>>, policy |-> "RP", faults |-> NoFaults]
+      me  == Len(CtorMenu) + 1
+      dup == HasDupSeq(RanksOf(Exposed(sc0, me)))
+  IN [sc0 EXCEPT !.progs = <<IF dup THEN <<>> ELSE <<Call("lock", me, "owned", "drop", MkBody(sc0, me, "lock", "acc", 0))>>>>]
+CtorScens == {CtorScen(k, l) : k \in CtorKinds, l \in CtorLists}
+
 RawScens == SetToSeq(CASE Family = "conc"  -> ConcScens
+                       [] Family = "ctor"  -> CtorScens
                        [] Family = "seq"   -> SeqScens
                        [] Family = "fault" -> FltScens)
 
